@@ -70,16 +70,10 @@ SENSITIVITY = [
 
 S = cg.CIRCUIT_SERIALIZER
 
-# Defects found on the unchanged tree that the fixer classified KNOWN (not repaired).  A case exhibiting one is excluded by
-# the framework once known_findings.json lists the feature; until then (and as a safety net) the oracle rejects it (counted).
-# F16b/c/d/e/g/j/k/l were repaired in /repo (fix: commits cf9bfbb 1e72958 cd616b4 828c1fe e402856 3cdea5d 5716225 3b660c6 297749d)
-# and are generated and checked like everything else.
-PENDING = {"F16a_circuit_op_tags_dropped", "F16f_unhashable_internal_arg", "F16h_numeric_tuple_to_list", "F16i_none_tag_dropped"}
-
-
-def _pending(name, sub, recipe):
-    if name in PENDING and KNOWN_FEATURES[name](sub, recipe):
-        raise Reject(f"pending candidate {name}")
+# Defects found on the unchanged tree (see /verif/findings/C16.json).  F16b/c/d/e/g/j/k/l were repaired in /repo (fix: commits
+# cf9bfbb 1e72958 cd616b4 828c1fe e402856 3cdea5d 5716225 3b660c6 297749d) and are generated and checked like everything else.
+# F16a/f/h/i were classified KNOWN: the framework excludes cases matching the KNOWN_FEATURES predicates below from generation
+# and reports the stored recipes as KNOWN-FINDING lines.
 
 
 def _bytes(p):
@@ -677,9 +671,6 @@ KNOWN_FEATURES = {
 # ========================================================================================== (1) programs
 
 
-PROGRAM_FEATURES = ("F16f_unhashable_internal_arg", "F16h_numeric_tuple_to_list", "F16i_none_tag_dropped", "F16a_circuit_op_tags_dropped")
-
-
 def _program_labels(c, have, want_syms):
     circs = _all_circuits(c, [])
     nops = sum(1 for cc in circs for _ in cc.all_operations())
@@ -804,8 +795,6 @@ def _build_or_reject(r):
 
 
 def oracle_programs(r):
-    for name in PROGRAM_FEATURES:
-        _pending(name, "programs", r)
     c = _build_or_reject(r)
     have, _ = _roundtrip_one(c, allowed=_allowed_rejections(r))
     return _program_labels(c, have, None)
@@ -826,8 +815,6 @@ def _multi_case(draw):
 
 
 def oracle_multi(r):
-    for name in PROGRAM_FEATURES:
-        _pending(name, "multi_program", r)
     circuits = [_build_or_reject(dict(r["base"], circuit=ci)) for ci in r["circuits"]]
     n = len(circuits)
     form = r["form"]
@@ -911,7 +898,6 @@ def _arg_case(draw):
 
 
 def oracle_args(r):
-    _pending("F16h_numeric_tuple_to_list", "args", r)
     kind = r["kind"]
     if kind == "arg":
         try:
@@ -1096,9 +1082,6 @@ def _sweep_case(draw):
     return {"sweep": draw(G.sweep_recipes()), "f64": draw(st.booleans())}
 
 
-SWEEP_FEATURES = ()
-
-
 def _build_sweep_or_reject(tree):
     try:
         return G.build_sweep(tree)
@@ -1117,8 +1100,6 @@ def _classify_sweep_error(e, r):
 
 
 def oracle_sweeps(r):
-    for name in SWEEP_FEATURES:
-        _pending(name, "sweeps", r)
     tree = r["sweep"]
     sweep = _build_sweep_or_reject(tree)
     try:
@@ -1170,8 +1151,6 @@ def _rc_case(draw):
 
 
 def oracle_run_context(r):
-    for name in SWEEP_FEATURES:
-        _pending(name, "run_context", r)
     form = r["form"]
     trees = list(r["sweeps"])
     if form == "sweep":
@@ -1907,9 +1886,9 @@ SUBCHECKS = [
              essential={"repeated_constant": 0.3, "symbolic": 0.1, "ops_differ_only_in_tag": 0.01, "has_subcircuit": 0.03}),
     SubCheck("multi_program", _multi_case(), oracle_multi, quick=500, thorough=15000, shards_quick=2, shards_thorough=8),
     SubCheck("args", _arg_case(), oracle_args, quick=3000, thorough=100000, shards_quick=2, shards_thorough=8),
-    SubCheck("sweeps", _sweep_case(), oracle_sweeps, quick=2500, thorough=80000, shards_quick=2, shards_thorough=8,
+    SubCheck("sweeps", _sweep_case(), oracle_sweeps, quick=2500, thorough=80000, shards_quick=4, shards_thorough=8,
              essential={"three_factors": 0.1, "has_metadata": 0.1}),
-    SubCheck("run_context", _rc_case(), oracle_run_context, quick=800, thorough=20000, shards_quick=1, shards_thorough=4),
+    SubCheck("run_context", _rc_case(), oracle_run_context, quick=800, thorough=20000, shards_quick=2, shards_thorough=4),
     SubCheck("results", G.result_recipes(), oracle_results, quick=1200, thorough=40000, shards_quick=2, shards_thorough=8,
              essential={"reps_not_multiple_of_8": 0.3, "qubit_order_permuted": 0.05}),
     SubCheck("pack_bits", _pack_case(), oracle_pack, quick=1000, thorough=30000, shards_quick=1, shards_thorough=2, enumerate=_pack_cases,
